@@ -24,8 +24,27 @@ scenarios ("dense" shape: an assertion block after every one or two given/when s
 LIMIT: in long_run.yaml one step triggers 1502 (eventless loop) or 1203 (chain of internal events) macro steps.  The
 model stays in the loop (it replays the recorded execute() results; about 10 s of vm_compute per such file).
 corpus/C19/*.json are fixed scenarios with the statuses the property demands (also run through the sismic-bdd CLI).
+
+Mutable literals (the "container family"): a second family of generated charts keeps an event parameter in a variable
+(`kp = getattr(event, 'p', kp)`), mutates it in place later (entry code and actions: append / pop / update / clear) and
+sends it on (`send('e1', p=kp)`); their scenarios write lists and dicts (a small pool, so the same literal TEXT comes
+back many times in a scenario, across the scenarios of a feature and across the features a worker process runs) as
+values of `I send event ... with p=v` (inline and table), `event ... is fired with p=v` and `variable ... equals v`,
+asserting both the value sent and the value the variable has now.  Every step's text denotes a FRESH value: the oracle
+hands a deep copy to its interpreter and never shows its own literals to the chart.  The corpus chart
+keeps_event_parameters.yaml (marker `# c19-family: containers`) goes through the same pipeline.  The literal reader of the
+Coq model reads None / booleans / integers / strings only, so the features of this family are NOT given to the model:
+they are compared with the Python oracle (statuses), with the recorded interpreter (macro steps serialised when they are
+produced, and the queue / advance / execute operations with their argument values at the time of the call -- compared
+in Python for every recorded scenario of both families) and with a second execute_bdd run of the same feature in the
+same process (a verdict does not depend on what the process has run before).  A disagreement may depend on what the
+worker process ran earlier: the replay of a scenario carries the features that process had run before it, in order, and
+`--replay` repeats them first in one process.  corpus/C19/mutable_literal_reuse.json is the fixed counterpart (a route
+kept and consumed in place; the same list / dict text inline, as a table, repeated, reproduced, in later scenarios).
+Every execute_bdd call runs under BEHAVE_LIMIT_S (the hooks call execute() without a bound).
 """
 import atexit
+import copy
 import json
 import os
 import random
@@ -37,9 +56,9 @@ import tempfile
 import time
 from fractions import Fraction
 
-from common import (COQ, COQ_FLAGS, GEN, NCPU, REPO, TRUSTED_BASE, Verdict, cbool, clist, copt, coq_build,
+from common import (COQ, COQ_FLAGS, GEN, NCPU, REPO, TRUSTED_BASE, Timeout, Verdict, cbool, clist, copt, coq_build,
                     coq_eval_files, cq, cstr, cz, gen_dir, log, parse_pairs, proof_stage, repo_blob_ids, run,
-                    write_evidence)
+                    time_limit, write_evidence)
 
 PROP = 'C19'
 PROOF_FILES = ['theories/Bdd.v', 'proofs/BddProofs.v']
@@ -50,6 +69,9 @@ CORPUS_LIMIT = 20000  # the same for the hand-written charts of the corpus (one 
 STATUS = {'passed': 'Passed', 'failed': 'Failed', 'error': 'Error', 'hook_error': 'HookError',
           None: 'Skipped', 'skipped': 'Skipped', 'untested': 'Skipped', 'undefined': 'Undefined'}
 EVENTS = ['e0', 'e1', 'e2']
+BEHAVE_LIMIT_S = 180  # one execute_bdd call (a feature of 10-12 scenarios takes a second, the long runs of the corpus a few):
+#                       the hooks call execute() without a bound, so steps other than the ones the oracle screened (LIMIT)
+#                       may start a run that never ends
 
 _TMP = []
 
@@ -202,6 +224,9 @@ class Oracle:
         self.script = []                 # (list of MacroStep | None, snapshot)
         self.ops = []
         self.block = None
+        self.block_mv = None             # the same macro steps, serialised when they were produced
+        self.script_mv = []              # one entry per execute(): its macro steps, serialised when they were produced
+        self.containers = False          # container family: candidates() also proposes list / dict values
         self.in_block = False
         self.whens_since_then = 0        # alternative readings of "block" (reported, not checked)
         self.run_block = []
@@ -224,11 +249,16 @@ class Oracle:
             raise Looping()
         self.ops.append(('execute',))
         self.script.append((ms, self.snapshot()))
+        # serialised NOW: the data of a sent event may be an object the chart goes on mutating
+        import sx
+        mv = None if ms is None else [sx.macro_value(self.interp, m) for m in ms]
+        self.script_mv.append(mv)
         if ms is None:
             return False
         if ty == 'when':
             if not self.in_block:
                 self.block = []
+                self.block_mv = []
                 self.run_block = []
                 self.in_block = True
                 self.given_between = False
@@ -238,6 +268,7 @@ class Oracle:
                 self.given_between = True
                 self.run_block = []
             self.block.extend(ms)
+            self.block_mv.extend(mv)
             self.run_block.extend(ms)
             self._last_given = False
             self.whens_since_then += 1
@@ -251,7 +282,9 @@ class Oracle:
         st = 'Passed'
         if k == 'send':
             d = params_of(sem)
-            self.interp.queue(sem[1], **d)
+            # the text of a step denotes a fresh value each time it is read: the chart may keep and mutate what it is
+            # given, the literals of the scenario (sem) stay what was written
+            self.interp.queue(sem[1], **copy.deepcopy(d))
             self.ops.append(('queue', sem[1], list(d.items())))
         elif k == 'wait':
             if sem[1] < 0:
@@ -342,7 +375,8 @@ class Oracle:
         f = self.fact(sem)
         stale = self.whens_since_then == 0          # no when step since the previous then step
         alt = self.fact(sem, [] if stale else self.run_block)
-        td = dict(block=list(self.block), fact=f, strict=alt, stale=stale, given_between=self.given_between and not stale,
+        td = dict(block=list(self.block), block_mv=list(self.block_mv), fact=f, strict=alt, stale=stale,
+                  given_between=self.given_between and not stale,
                   value_kind=value_kind(self.interp.context, sem[1]) if sem[0] in ('vareq', 'varne') else None,
                   longest_run=max([len(e[0]) for e in self.script if e[0] is not None] or [0]))
         self.whens_since_then = 0
@@ -405,8 +439,65 @@ def diversify(rng, sc):
 
 PVALS = [0, 1, 2, 3, -1, True, False, None, 'a', 'b c']
 
+# ---- the container family: literal values that are mutable objects, charts that keep and mutate what they are given.
+# A small pool: the same text is written again and again (in one scenario, across the scenarios of a feature, across
+# the features one worker process runs).
+CVALS = [[3, 5], [3, 5], [3, 5], [], [], [0], [1, 2, 3], {'k': 1}, {'k': 1}, {}, {'k': 1, 'n': 0}, (1, 2), 7, 'a']
+KEEP_CODE = ["kp = getattr(event, 'p', kp)", "kp = getattr(event, 'p', kp)", "kd = getattr(event, 'v', kd)",
+             "kp = getattr(event, 'v', kp)", "kd = getattr(event, 'p', kd)", "kd = getattr(event, 'w', kd)"]
+MUTATE_CODE = ['kp.append(x) if isinstance(kp, list) else None', 'kp.pop(0) if isinstance(kp, list) and kp else None',
+               'kp.pop(0) if isinstance(kp, list) and kp else None', 'kd.update(n=x) if isinstance(kd, dict) else None',
+               "kd.pop('k', None) if isinstance(kd, dict) else None", 'kp.clear() if isinstance(kp, (list, dict)) else None',
+               'kd.append(y) if isinstance(kd, list) else None', 'kp.update(k=y) if isinstance(kp, dict) else None',
+               'kp.reverse() if isinstance(kp, list) else None', 'kd.clear() if isinstance(kd, (list, dict)) else None']
+SEND_KEPT = ["send('%s', p=kp)", "send('%s', v=kd)", "send('%s', p=kp, v=kd)"]
 
-def gen_action(rng, k, names, depth=0, allow_fail=True):
+
+def is_container(v):
+    return isinstance(v, (list, dict, tuple))
+
+
+def cval(rng):
+    return copy.deepcopy(rng.choice(CVALS))
+
+
+def mutabilize(rng, sc):
+    """two more variables (kp, kd) that hold what an event brought (`event` is exposed to the action of a transition,
+    and is None for an eventless one) and are mutated IN PLACE afterwards by entry code and by other actions; some
+    actions send the kept object on as the parameter of an internal event.  Code that cannot raise whatever the value
+    is (an integer parameter is kept too)."""
+    sc._preamble += '\nkp = []\nkd = {}'
+
+    def add(code, more):
+        return more if not code else code + '\n' + more
+    for t in sc.transitions:
+        r = rng.random()
+        if r < 0.55:
+            t.action = add(t.action, rng.choice(KEEP_CODE))
+        if rng.random() < 0.4:
+            t.action = add(t.action, rng.choice(MUTATE_CODE))
+        if rng.random() < 0.12:
+            t.action = add(t.action, rng.choice(SEND_KEPT) % rng.choice(EVENTS))
+    for n in sc.states:
+        st = sc.state_for(n)
+        if hasattr(st, 'on_entry') and rng.random() < 0.3:
+            st.on_entry = add(st.on_entry, rng.choice(MUTATE_CODE))
+
+
+def gen_action(rng, k, names, depth=0, allow_fail=True, containers=False):
+    if containers and rng.random() < 0.5:
+        # an event with list / dict parameters, inline and as a table
+        ev = rng.choice(EVENTS)
+        tbl = []
+        inl = None
+        q = rng.random()
+        if q < 0.6 or depth > 0:
+            inl = (rng.choice(['p', 'p', 'v']), cval(rng))
+        else:
+            tbl = [(rng.choice(['p', 'v', 'w']), cval(rng)) for _ in range(rng.randint(1, 2))]
+            if rng.random() < 0.4:
+                inl = (rng.choice(['p', 'v']), cval(rng))
+        return ('send', ev, tbl, inl)
     r = rng.random()
     if r < 0.42:
         ev = rng.choice(EVENTS) if rng.random() < 0.93 else 'zz'
@@ -428,7 +519,7 @@ def gen_action(rng, k, names, depth=0, allow_fail=True):
     if r < 0.68:
         return ('nothing',)
     if r < 0.82 and depth < 2:
-        return ('repeat', gen_action(rng, k, names, depth + 1, allow_fail), rng.choice([0, 1, 2, 2, 3]))
+        return ('repeat', gen_action(rng, k, names, depth + 1, allow_fail, containers), rng.choice([0, 1, 2, 2, 3]))
     if r < 0.95 and names and depth == 0:
         if allow_fail and rng.random() < 0.04:
             return ('reproduce', 'nosuch')
@@ -459,7 +550,7 @@ def candidates(rng, o, kind):
     elif kind == 'fired':
         names = sorted({e.name for e in sent})
         for e in rng.sample(sent, min(len(sent), 3)):
-            data = list(e.data.items())
+            data = [(k, copy.deepcopy(v)) for k, v in e.data.items()]      # what the event carries now (never the live object)
             out.append(('fired', e.name, [], None))
             if data:
                 k, v = rng.choice(data)
@@ -478,6 +569,15 @@ def candidates(rng, o, kind):
                         out.append(('fired', e.name, [(k1, v1), (k2, v2)], None))
                     if v in (0, 1):
                         out.append(('fired', e.name, [], (k, bool(v))))            # True == 1
+                elif o.containers and is_container(v) and is_flat(v):
+                    # the value the event carries NOW (it may be an object the chart has mutated since), written inline
+                    # and as a table; and values it does not carry: what was sent to the chart, other literals of the pool
+                    out.append(('fired', e.name, [], (k, copy.deepcopy(v))))
+                    out.append(('fired', e.name, [(k, copy.deepcopy(v))], None))
+                    out.append(('fired', e.name, [(kk, copy.deepcopy(vv)) for kk, vv in data if is_flat(vv)], None))
+                    for other in sent_literals(o)[-2:] + [cval(rng)]:
+                        out.append(('fired', e.name, [], (k, other)))
+                        out.append(('fired', e.name, [(k, other)], ('name', e.name)))
             out.append(('fired', e.name, [], ('nokey', rng.choice([None, 3]))))
             out.append(('fired', e.name, [], ('name', e.name)))
             out.append(('fired', e.name, [('name', 'other')], None))
@@ -517,6 +617,13 @@ def candidates(rng, o, kind):
                 continue
             for other in rng.sample(LOOKALIKES, 3):
                 out.append((kind, x, other))
+            if o.containers and is_container(cur) and is_flat(cur):
+                # what the variable holds now, what the scenario sent (the variable may have held exactly that before
+                # the chart mutated it) and other literals of the pool
+                out.append((kind, x, copy.deepcopy(cur)))
+                out.append((kind, x, copy.deepcopy(cur)))
+                for other in sent_literals(o)[-3:] + [cval(rng), cval(rng)]:
+                    out.append((kind, x, other))
     elif kind in ('expr', 'notexpr'):
         ctx = o.interp.context
         for _ in range(6):
@@ -536,10 +643,42 @@ def candidates(rng, o, kind):
 
 
 PLAIN_STR = re.compile(r'^[A-Za-z0-9 _]*$')
+
+
+def is_flat(v):
+    """a value whose repr, evaluated, gives an equal value: None / booleans / integers / plain strings and lists,
+    tuples, dicts of them."""
+    def atom(a):
+        return a is None or isinstance(a, (bool, int)) or (isinstance(a, str) and PLAIN_STR.match(a) is not None)
+    if isinstance(v, dict):
+        return all(atom(a) for a in v.keys()) and all(atom(a) for a in v.values())
+    if isinstance(v, (list, tuple)):
+        return all(atom(a) for a in v)
+    return atom(v)
+
+
+def writes_container(sem):
+    if sem[0] in ('send', 'fired'):
+        return any(is_container(v) for v in params_of(sem).values())
+    if sem[0] in ('vareq', 'varne'):
+        return is_container(sem[2])
+    if sem[0] == 'repeat':
+        return writes_container(sem[1])
+    return False
+
+
+def sent_literals(o):
+    """the container values this scenario has sent to the chart so far (copies), oldest first."""
+    out = []
+    for op in o.ops:
+        if op[0] == 'queue':
+            out += [copy.deepcopy(v) for _, v in op[2] if is_container(v)]
+    return out
 LOOKALIKES = [None, False, True, 0, 1, '', 'a', 'None', 3]
 
 KINDS = ['entered', 'notentered', 'exited', 'notexited', 'active', 'notactive', 'fired', 'fired', 'notfired',
          'noevent', 'vareq', 'varne', 'expr', 'notexpr', 'final', 'notfinal']
+KINDS_C = KINDS + ['vareq', 'vareq', 'vareq', 'varne', 'varne', 'fired', 'fired']
 
 
 def choose_then(rng, o, target):
@@ -549,11 +688,14 @@ def choose_then(rng, o, target):
     if rng.random() < 0.03 and o.block is not None:
         return (rng.choice(['expr', 'notexpr']), 'q9 == %d' % rng.randint(0, 3), True)    # raises NameError
     for _ in range(8):
-        kind = rng.choice(KINDS)
+        kind = rng.choice(KINDS_C if o.containers else KINDS)
         if o.block is None:
             c = [(kind, 'x', 0)] if kind in ('vareq', 'varne') else ([(kind,)] if kind in ('final', 'notfinal', 'noevent') else [])
         else:
             c = candidates(rng, o, kind)
+        if o.containers and kind in ('vareq', 'varne', 'fired') and rng.random() < 0.7:
+            # mostly assertions that write a list / dict
+            c = [x for x in c if writes_container(x)] or c
         rng.shuffle(c)
         for sem in c:
             if o.block is None or o.fact(sem) == target:
@@ -563,7 +705,7 @@ def choose_then(rng, o, target):
     return ('notfinal',) if target != bool(o.interp.final) else ('final',)
 
 
-def gen_feature(rng, sc, n_scen, limit=None, dense=False):
+def gen_feature(rng, sc, n_scen, limit=None, dense=False, containers=False):
     """returns list of scenarios: dict(name, lines=[dict(kw, ty, text, table, sem)], oracle data...)
     dense: 2 to 4 blocks of one or two given/when steps, each followed by then steps (an assertion right after
     most actions) instead of one or two longer blocks."""
@@ -575,6 +717,7 @@ def gen_feature(rng, sc, n_scen, limit=None, dense=False):
         names = [s['name'] for s in scens if s['reproducible']]
         for attempt in range(6):
             o = Oracle(sc, feature_sems, limit=limit)
+            o.containers = containers
             lines = []
             statuses = []
             thens = []
@@ -595,7 +738,7 @@ def gen_feature(rng, sc, n_scen, limit=None, dense=False):
                         else:
                             ty = 'when' if (rng.random() < 0.6 or (j == n_act - 1 and not has_when and part == 0)) else 'given'
                         has_when = has_when or ty == 'when'
-                        sem = gen_action(rng, k, names, allow_fail=(exec_raised < 2))
+                        sem = gen_action(rng, k, names, allow_fail=(exec_raised < 2), containers=containers)
                         uses.add(sem[0])
                         lines.append(dict(ty=ty, text=action_text(sem), table=sem_table(sem), sem=sem))
                         if alive:
@@ -650,6 +793,7 @@ def gen_feature(rng, sc, n_scen, limit=None, dense=False):
             prev = ln['ty']
         feature_sems[name] = [(ln['ty'], ln['sem']) for ln in lines]
         scens.append(dict(name=name, lines=lines, oracle_status=statuses, thens=thens, script=o.script, ops=o.ops,
+                          script_mv=o.script_mv,
                           reproducible=all(st == 'Passed' for st, ln in zip(statuses, lines) if ln['ty'] != 'then')
                           and 'reproduce' not in uses or rng.random() < 0.3 and all(
                               st == 'Passed' for st, ln in zip(statuses, lines) if ln['ty'] != 'then'),
@@ -676,6 +820,7 @@ def feature_text(title, scens, order):
 # running behave
 # ------------------------------------------------------------------------------------------------
 REC_LOGS = []
+HISTORY = []      # (statechart, feature text) of every execute_bdd call of this process, in order
 
 
 def make_rec_klass():
@@ -705,8 +850,9 @@ def make_rec_klass():
             super().__init__(sc, clock=RecClock(self._lg), **kw)
 
         def queue(self, event_or_name, *rest, **parameters):
+            # the argument values as they are at the time of the call (the chart may mutate them afterwards)
             self._lg.append(('queue', event_or_name if isinstance(event_or_name, str) else event_or_name.name,
-                             list(parameters.items())))
+                             list(copy.deepcopy(parameters).items())))
             return super().queue(event_or_name, *rest, **parameters)
 
         def execute(self, max_steps=-1):
@@ -729,6 +875,7 @@ def run_behave(sc, text, record, step_files=None):
     with open(fp, 'w') as f:
         f.write(text)
     outp = os.path.join(d, 'out.json')
+    HISTORY.append((sc, text))
     del REC_LOGS[:]
     kw = {}
     if record:
@@ -743,7 +890,8 @@ def run_behave(sc, text, record, step_files=None):
         os.dup2(dn, 1)
         os.dup2(dn, 2)
         try:
-            execute_bdd(sc, [fp], behave_parameters=['-f', 'json', '-o', outp, '--no-summary', '-q'], **kw)
+            with time_limit(BEHAVE_LIMIT_S):
+                execute_bdd(sc, [fp], behave_parameters=['-f', 'json', '-o', outp, '--no-summary', '-q'], **kw)
         finally:
             sys.stdout.flush()
             sys.stderr.flush()
@@ -752,6 +900,9 @@ def run_behave(sc, text, record, step_files=None):
             os.close(so)
             os.close(se)
             os.close(dn)
+    except Timeout:
+        return None, None, 'execute_bdd did not end within %d s (the oracle run of the same scenarios ends: every step of it ' \
+                           'reaches quiescence in fewer than the screened number of macro steps)' % BEHAVE_LIMIT_S
     except BaseException as e:   # noqa
         return None, None, repr(e)
     try:
@@ -859,7 +1010,8 @@ def corpus_chart_task_safe(args):
 
 
 def chart_task(args):
-    seed, n_scen, record = args
+    seed, n_scen, record = args[:3]
+    containers = len(args) > 3 and args[3]      # the container family (module docstring)
     sys.path.insert(0, os.path.dirname(os.path.abspath(__file__)))
     import sx
     rng = random.Random(seed)
@@ -868,13 +1020,15 @@ def chart_task(args):
         cseed = seed * 1000 + attempt
         try:
             sc = make_chart(cseed)
+            if containers:
+                mutabilize(random.Random(cseed + 3), sc)
             from sismic.interpreter import Interpreter
             try:
                 if len(Interpreter(sc).execute(max_steps=LIMIT)) >= LIMIT:
                     continue
             except Exception:   # noqa  a chart that cannot even be initialised exercises nothing
                 continue
-            scens = gen_feature(random.Random(cseed + 7), sc, n_scen)
+            scens = gen_feature(random.Random(cseed + 7), sc, n_scen, containers=containers)
             break
         except Looping:
             continue
@@ -884,7 +1038,10 @@ def chart_task(args):
             continue
     else:
         return dict(seed=seed, error='no usable chart', detail=last)
-    return run_chart(seed, cseed, sc, scens, rng, record)
+    return run_chart(seed, cseed, sc, scens, rng, record, containers)
+
+
+CONTAINER_MARK = '# c19-family: containers'
 
 
 def corpus_chart_task(args):
@@ -898,7 +1055,8 @@ def corpus_chart_task(args):
     for attempt in range(5):
         try:
             sc = import_from_yaml(yaml_text)
-            scens = gen_feature(random.Random(seed * 1000 + attempt), sc, n_scen, limit=CORPUS_LIMIT, dense=(seed % 4) < 3)
+            scens = gen_feature(random.Random(seed * 1000 + attempt), sc, n_scen, limit=CORPUS_LIMIT, dense=(seed % 4) < 3,
+                                containers=CONTAINER_MARK in yaml_text)
             break
         except Looping:
             last = 'a step of every candidate feature needs %d macro steps or more' % CORPUS_LIMIT
@@ -907,43 +1065,69 @@ def corpus_chart_task(args):
             last = traceback.format_exc()
     else:
         return dict(seed=seed, error='corpus chart %s unusable' % fn, detail=last)
-    out = run_chart(seed, '%s/%d' % (fn, seed), sc, scens, random.Random(seed), record)
+    out = run_chart(seed, '%s/%d' % (fn, seed), sc, scens, random.Random(seed), record, CONTAINER_MARK in yaml_text)
     out['corpus_chart'] = fn
     return out
 
 
-def run_chart(seed, cseed, sc, scens, rng, record):
+def canon_ops(ops):
+    """interpreter operations as comparable text: the values of a queue call by type and content (True is not 1)."""
+    out = []
+    for o in ops:
+        if o[0] == 'queue':
+            out.append('queue %s(%s)' % (o[1], ', '.join('%s=%r' % (k, v) for k, v in o[2])))
+        elif o[0] == 'advance':
+            out.append('advance %s' % Fraction(o[1]))
+        else:
+            out.append('execute')
+    return out
+
+
+def run_chart(seed, cseed, sc, scens, rng, record, containers=False):
     import sx
     order = list(range(len(scens)))
     rng.shuffle(order)
     text = feature_text('F%s' % cseed, scens, order)
+    h0 = len(HISTORY)
     res, logs, names = run_behave(sc, text, record)
     from sismic.io import export_to_yaml
     out = dict(seed=seed, cseed=cseed, text=text, yaml=export_to_yaml(sc), states=list(sc.states), record=record,
-               scens=[], behave_error=None if res is not None else names, tests=[])
+               scens=[], behave_error=None if res is not None else names, tests=[], containers=containers)
     if res is None:
+        try:
+            out['preceding_features'] = [dict(chart_yaml=export_to_yaml(c_), feature_text=t_) for c_, t_ in HISTORY[:h0]]
+        except Exception as e:   # noqa
+            out['preceding_features'] = [dict(error=repr(e))]
         return out
+    res2 = None
+    if containers:
+        # the same feature once more in the same process: a verdict does not depend on what was run before
+        res2, _, names2 = run_behave(sc, text, False)
+        if res2 is None:
+            out['behave_error'] = 'second run: %s' % (names2,)
+            res2 = {}
     log_by_name = {}
     if logs is not None and len(logs) == len(names):
         log_by_name = dict(zip(names, logs))
     for s in scens:
-        script = []
-        for ms, snap in s['script']:
-            script.append((None if ms is None else [sx.macro_value(s['interp'], m) for m in ms], snap))
+        # macro steps as serialised when they were produced (Oracle.execute), like the recorded interpreter does
+        script = [(mv, e[1]) for mv, e in zip(s['script_mv'], s['script'])]
         thens = []
         for td in s['thens']:
             if td is None:
                 thens.append(None)
             else:
-                thens.append(dict(block=[sx.macro_value(s['interp'], m) for m in td['block']], fact=td['fact'],
+                thens.append(dict(block=td['block_mv'], fact=td['fact'],
                                   strict=td['strict'], stale=td['stale'], given_between=td['given_between'],
                                   value_kind=td['value_kind'], longest_run=td['longest_run']))
         rl = log_by_name.get(s['name'])
         impl_macros_ok = None
+        impl_ops_ok = None
         if rl is not None:
             im = [x[1] for x in rl if x[0] == 'execute']
             om = [x[0] for x in script]
             impl_macros_ok = (im == om)
+            impl_ops_ok = canon_ops(rl) == canon_ops(s['ops'])
         out['scens'].append(dict(
             name=s['name'], lines=[dict(kw=l['kw'], ty=l['ty'], text=l['text'], table=l['table'], sem=l['sem'])
                                    for l in s['lines']],
@@ -951,13 +1135,42 @@ def run_chart(seed, cseed, sc, scens, rng, record):
             ops=[(o[0],) + tuple(o[1:]) for o in s['ops']],
             rec_ops=None if rl is None else [(x[0],) if x[0] == 'execute' else x for x in rl],
             tables_reproduced=s['tables_reproduced'],
-            impl_macros_ok=impl_macros_ok))
+            impl_macros_ok=impl_macros_ok, impl_ops_ok=impl_ops_ok,
+            behave2=None if res2 is None else res2.get(s['name']),
+            literal_reuse=literal_reuse(s['lines']) if containers else None))
         # sismic.testing on the last block of this scenario
         blk = next((td['block'] for td in reversed(s['thens']) if td is not None), None)
         if blk:
             classes, mv, qs = testing_queries(rng, sc, blk, s['interp'])
             out['tests'].append(dict(classes=classes, block=mv, queries=qs))
+    # a disagreement may depend on what this process ran before (state kept by the step library between runs): the
+    # features run earlier by this worker go into the replay, in order
+    norm = lambda b: None if b is None else ['Error' if x == 'Undefined' else x for x in b]   # noqa
+    if any(norm(s['behave']) != s['oracle_status'] or s['impl_ops_ok'] is False or s['impl_macros_ok'] is False or
+           (containers and norm(s['behave2']) != s['oracle_status']) for s in out['scens']):
+        try:
+            out['preceding_features'] = [dict(chart_yaml=export_to_yaml(c_), feature_text=t_) for c_, t_ in HISTORY[:h0]]
+        except Exception as e:   # noqa
+            out['preceding_features'] = [dict(error=repr(e))]
     return out
+
+
+def literal_reuse(lines):
+    """coverage: how often each container literal TEXT is written in a scenario (nested steps counted once)."""
+    n = {}
+
+    def walk(sem):
+        if sem[0] == 'repeat':
+            walk(sem[1])
+        elif sem[0] in ('send', 'fired'):
+            for v in params_of(sem).values():
+                if is_container(v):
+                    n[lit(v)] = n.get(lit(v), 0) + 1
+        elif sem[0] in ('vareq', 'varne') and is_container(sem[2]):
+            n[lit(sem[2])] = n.get(lit(sem[2]), 0) + 1
+    for l in lines:
+        walk(l['sem'])
+    return n
 
 
 # ------------------------------------------------------------------------------------------------
@@ -1238,6 +1451,12 @@ def replay_obj(ch, s, why, extra=None):
     d = dict(property=PROP, kind='bdd-scenario', why=why, chart_yaml=ch['yaml'], feature_text=ch['text'],
              scenario=s['name'], lines=s['lines'], oracle_status=s['oracle_status'], behave_status=s['behave'],
              thens=[None if td is None else dict(fact=td['fact'], strict_reading=td['strict']) for td in s['thens']],
+             oracle_operations=canon_ops(s['ops']), recorded=s['rec_ops'] is not None, run_twice=bool(ch.get('containers')),
+             checked_against=('Python oracle and recorded interpreter (list / dict literals are outside the literal reader of '
+                              'the Coq model)' if ch.get('containers') else 'Python oracle, recorded interpreter, Coq model'),
+             preceding_features=ch.get('preceding_features') or [],
+             preceding_features_note='execute_bdd runs of the same worker process before this feature (the replay repeats them '
+                                     'first, in the same process)',
              how_to_replay='cd /verif && ./check C19 --replay <this file>')
     if extra:
         d.update(extra)
@@ -1350,6 +1569,9 @@ def main(tier, seed):
     n_charts = 96 if tier == 'quick' else 960
     n_scen = 12
     tasks = [(seed * 100003 + i, n_scen, (i % 4) != 3) for i in range(n_charts)]
+    # the container family (module docstring): not given to the Coq model
+    n_cont = 48 if tier == 'quick' else 480
+    tasks += [(seed * 100003 + 50000 + i, n_scen, (i % 4) != 3, True) for i in range(n_cont)]
     t1 = time.time()
     corpus = load_corpus()
     cc = load_corpus_charts()
@@ -1383,13 +1605,13 @@ def main(tier, seed):
     files = []
     shard = 4 if tier == 'quick' else 8
     idx_of = {}
-    gen_charts = [c for c in charts if not c[1].get('corpus_chart')]
+    gen_charts = [c for c in charts if not c[1].get('corpus_chart') and not c[1].get('containers')]
     for k in range(0, len(gen_charts), shard):
         fn = os.path.join(d, 'cases_%d.v' % (k // shard))
         idx_of[fn] = write_case_file(fn, gen_charts[k:k + shard], mres['ci'])
         files.append(fn)
     for c in charts:
-        if c[1].get('corpus_chart'):      # a case file of its own (thousands of macro steps per scenario)
+        if c[1].get('corpus_chart') and not c[1].get('containers'):      # a case file of its own (thousands of macro steps per scenario)
             fn = os.path.join(d, 'cases_corpus_%d.v' % c[0])
             idx_of[fn] = write_case_file(fn, [c], mres['ci'])
             files.append(fn)
@@ -1412,7 +1634,12 @@ def main(tier, seed):
     n_corpus = 0
     for fn, bad, n in cres:
         n_corpus += n
-        for b in bad:
+        for bi, b in enumerate(bad):
+            if bi >= 2:       # one corpus file is one replay: two of its scenarios are written out, all of them are named and counted
+                n_viol += 1
+                continue
+            if bi == 0:
+                b = dict(b, all_failing_scenarios_of_this_file=[x.get('scenario') for x in bad])
             v.violation(dict(property=PROP, kind='corpus', file=os.path.join(CORPUS, fn), **b,
                              how_to_replay='cd /verif && ./check C19 --replay %s' % os.path.join(CORPUS, fn)),
                         tag=re.sub(r'[^A-Za-z0-9_]+', '_', 'c_%s_%s' % (fn[:-5], b['scenario'])))
@@ -1453,21 +1680,54 @@ def main(tier, seed):
                  given_between_strict_reading_differs=0, exec_raised=0, intermediate_then=0, skipped_after_failure=0,
                  unquoted_expression=0, failing_action=0, reproduced_steps_with_table=0, raising_expression=0)
     impl_traces = 0
+    impl_ops = 0
+    deferred = []
+    disagreements = dict(statuses=0, statuses_about_a_list_or_dict_assertion=0, false_assertion_passed=0,
+                         true_assertion_not_passed=0, operations=0, second_run=0)
+    cont = dict(charts=0, scenarios=0, second_runs_compared=0, steps_writing_a_list_or_dict=0,
+                scenarios_writing_one_literal_text_more_than_once=0, distinct_literal_texts=set(),
+                assertions_writing_a_list_or_dict=dict(true=0, false=0))
     samples = []
     value_kinds = {}
     longest_run = 0
     then_after_long_run = 0
     for ci_, ch in charts:
+        cont['charts'] += 1 if ch.get('containers') else 0
         for si, s in enumerate(ch['scens']):
             if s['behave'] is None:
                 v.violation(replay_obj(ch, s, 'scenario missing from behave output'), tag='a%d_%d' % (ci_, si), no_input=True)
                 n_viol += 1
                 continue
             n_cases += 1
+            flagged = False
+            if ch.get('containers'):
+                cont['scenarios'] += 1
+                lr = s.get('literal_reuse') or {}
+                cont['distinct_literal_texts'].update(lr)
+                cont['steps_writing_a_list_or_dict'] += sum(lr.values())
+                cont['scenarios_writing_one_literal_text_more_than_once'] += 1 if any(n > 1 for n in lr.values()) else 0
+                for l, st in zip(s['lines'], s['oracle_status']):
+                    if l['ty'] == 'then':
+                        if st in ('Passed', 'Failed') and writes_container(l['sem']):
+                            cont['assertions_writing_a_list_or_dict']['true' if st == 'Passed' else 'false'] += 1
+            # the operations the steps performed on the interpreter behave drove, with their argument values at the time
+            # of the call, against the documented ones (both families; the model compares them too where it reads the feature)
+            same_statuses = ['Error' if b == 'Undefined' else b for b in s['behave']] == s['oracle_status']
+            if s.get('impl_ops_ok'):
+                impl_ops += 1
+            elif s.get('impl_ops_ok') is False and same_statuses:      # (different statuses are reported below)
+                # (written after the scenarios whose verdicts differ)
+                deferred.append((replay_obj(ch, s, 'queue / advance / execute operations performed on the interpreter differ from '
+                                            'what the steps of the scenario say (argument values as they were at the call)',
+                                            dict(recorded_operations=canon_ops(s['rec_ops']))), 'o%d_%d' % (ci_, si)))
+                n_viol += 1
+                flagged = True
+                disagreements['operations'] += 1
             usage['reproduced_steps_with_table'] += s.get('tables_reproduced', 0)
             if s['impl_macros_ok']:
                 impl_traces += 1
-            elif s['impl_macros_ok'] is False and (ci_, si) not in [(a, b) for a, b, _ in model_mism]:
+            elif s['impl_macros_ok'] is False and (ci_, si) not in [(a, b) for a, b, _ in model_mism] and not flagged \
+                    and same_statuses:      # (with different statuses the scenario is reported just below, with its input)
                 v.violation(replay_obj(ch, s, 'macro steps of the interpreter driven by behave differ from the oracle run'),
                             tag='t%d_%d' % (ci_, si), no_input=True)
                 n_viol += 1
@@ -1476,6 +1736,24 @@ def main(tier, seed):
                 if (ci_, si) not in [(a, b) for a, b, _ in model_mism]:
                     v.violation(replay_obj(ch, s, 'behave statuses differ from the Python oracle'), tag='a%d_%d' % (ci_, si))
                     n_viol += 1
+                disagreements['statuses'] += 1
+                for l, b_, o_ in zip(s['lines'], beh, s['oracle_status']):
+                    if b_ != o_:
+                        if l['ty'] == 'then':
+                            disagreements['statuses_about_a_list_or_dict_assertion'] += 1 if writes_container(l['sem']) else 0
+                            disagreements['false_assertion_passed'] += 1 if (b_, o_) == ('Passed', 'Failed') else 0
+                            disagreements['true_assertion_not_passed'] += 1 if o_ == 'Passed' else 0
+                        break
+            # the same feature run a second time in the same process (container family)
+            if ch.get('containers'):
+                cont['second_runs_compared'] += 1
+                beh2 = None if s.get('behave2') is None else ['Error' if b == 'Undefined' else b for b in s['behave2']]
+                if beh2 != s['oracle_status'] and beh == s['oracle_status'] and not flagged:
+                    v.violation(replay_obj(ch, s, 'statuses of a second execute_bdd run of the same feature in the same process '
+                                           'differ from the Python oracle', dict(behave_status_second_run=s.get('behave2'))),
+                                tag='r%d_%d' % (ci_, si))
+                    n_viol += 1
+                    disagreements['second_run'] += 1
             ti = 0
             texts = ' / '.join(l['text'] for l in s['lines'])
             for l, st in zip(s['lines'], s['behave']):
@@ -1533,6 +1811,8 @@ def main(tier, seed):
             if len(samples) < 3 and len(s['lines']) >= 3:
                 samples.append(dict(chart_seed=ch['cseed'], scenario=[('%s %s' % (l['kw'], l['text']), l['table']) for l in s['lines']],
                                     behave=s['behave'], oracle=s['oracle_status']))
+    for obj_, tag_ in deferred:
+        v.violation(obj_, tag=tag_)
     # ---- sismic.testing
     n_t = n_t_bad = 0
     for ti, t in enumerate(tests):
@@ -1616,7 +1896,8 @@ def main(tier, seed):
     beh_err = [r for r in results if r.get('behave_error')]
     for r in beh_err[:2]:
         v.violation(dict(property=PROP, broken='execute_bdd did not run', error=r['behave_error'], feature_text=r.get('text'),
-                         chart_yaml=r.get('yaml')), tag='behave', no_input=True)
+                         chart_yaml=r.get('yaml'), preceding_features=r.get('preceding_features') or []), tag='behave',
+                    no_input=True)
         n_viol += 1
     if not dev and (not info.get('build_ok') or not info.get('ok') or info.get('forbidden_tokens') or own):
         if n_viol == 0:
@@ -1631,7 +1912,8 @@ def main(tier, seed):
         trusted_base=TRUSTED_BASE + [
             'behave %s (Gherkin parsing, hook invocation, nested execute_steps, JSON formatter) and parse: third party, '
             'exercised end-to-end, not modelled beyond skip-after-failure / first-match / hook order' % _behave_version(),
-            'Python eval of literal arguments (modelled by a literal reader on None/True/False/integers/quoted strings)',
+            'Python eval of literal arguments (modelled by a literal reader on None/True/False/integers/quoted strings; '
+            'scenarios that write lists / dicts are compared with the Python oracle and the recorded interpreter only)',
             'Print Assumptions: ' + ('Closed under the global context x%d' % info.get('closed', 0)
                                      if not info.get('axioms') else '; '.join(info['axioms']))],
         theorems=info.get('theorems', []),
@@ -1643,7 +1925,20 @@ def main(tier, seed):
         assertions_by_kind=dist, usage=usage, variable_assertions_by_kind_of_current_value=value_kinds,
         corpus_charts=dict(files=[fn for fn, _ in cc], runs=len(ctasks), usable=sum(1 for _, c in charts if c.get('corpus_chart')),
                            longest_run_of_one_step_in_macro_steps=longest_run, then_steps_after_a_run_over_1000=then_after_long_run,
-                           checked_against='Python oracle and Coq model (BddCorr.check_cases), like the generated charts'), traces_validated_against_impl=impl_traces,
+                           checked_against='Python oracle and Coq model (BddCorr.check_cases), like the generated charts; the '
+                                           'charts marked "%s": Python oracle and recorded interpreter' % CONTAINER_MARK),
+        traces_validated_against_impl=impl_traces, operations_validated_against_impl_in_python=impl_ops,
+        disagreements_with_the_python_oracle=disagreements,
+        container_family=dict(
+            cont, distinct_literal_texts=sorted(cont['distinct_literal_texts']),
+            corpus_charts=[fn for fn, y in cc if CONTAINER_MARK in y],
+            what='charts that keep an event parameter in a variable, mutate it in place and send it on; list / dict literals as '
+                 'values of send / fired / variable steps (inline and table), a small pool of literal texts written again and '
+                 'again in a scenario, across scenarios and across the features one worker process runs',
+            checked_against='Python oracle (statuses; every step text denotes a fresh value), recorded interpreter (macro steps '
+                            'and queue / advance / execute operations with their values at the time of the call), a second '
+                            'execute_bdd run of the same feature in the same process.  NOT the Coq model: py_literal of Bdd.v '
+                            'reads None / booleans / integers / strings; a list or dict in a step text is undecodable there'),
         recorded_interpreter_runs=sum(1 for _, c in charts if c['record']), default_interpreter_runs=sum(1 for _, c in charts if not c['record']),
         testing_predicate_calls=n_t, matcher_queries=len(mcases), matcher_case_insensitive=mres['ci'],
         matcher_queries_where_behave_raised=len(mres['cases']) - len(mcases),
@@ -1696,7 +1991,12 @@ def replay(path):
             print('replay: %d scenarios, behave agrees with the expected statuses' % n)
         return v.finish()
     sc = import_from_yaml(obj['chart_yaml'])
-    res, _, names = run_behave(sc, obj['feature_text'], False)
+    pre = [p for p in (obj.get('preceding_features') or []) if p.get('feature_text')]
+    for p in pre:          # what the worker process had run before, in the same process
+        run_behave(import_from_yaml(p['chart_yaml']), p['feature_text'], False)
+    if pre:
+        print('(%d features run first, as in the process that reported this)' % len(pre))
+    res, logs, names = run_behave(sc, obj['feature_text'], bool(obj.get('recorded')))
     if res is None:
         print('behave did not run: %s' % names)
         return 2
@@ -1716,7 +2016,23 @@ def replay(path):
     print('scenario %s' % name)
     for l, o, g in zip(obj['lines'], obj['oracle_status'], got or []):
         print('  %-5s %-60s oracle=%-9s behave=%s' % (l['kw'], l['text'], o, g))
-    if got != obj['oracle_status']:
+    bad = got != obj['oracle_status']
+    if obj.get('recorded') and obj.get('oracle_operations') is not None and logs is not None and len(logs) == len(names) \
+            and name in names:
+        rec = canon_ops(logs[names.index(name)])
+        if rec != obj['oracle_operations']:
+            bad = True
+            print('  operations performed on the interpreter (values at the time of the call):')
+            for a, b in zip(rec + [None] * len(obj['oracle_operations']), obj['oracle_operations'] + [None] * len(rec)):
+                if a is not None or b is not None:
+                    print('    %-50s scenario says %s%s' % (a, b, '' if a == b else '    <-- differs'))
+    if obj.get('run_twice'):
+        res2, _, names2 = run_behave(sc, obj['feature_text'], False)
+        got2 = None if res2 is None or res2.get(name) is None else ['Error' if b == 'Undefined' else b for b in res2[name]]
+        if got2 != obj['oracle_status']:
+            bad = True
+            print('  second run of the feature in this process: %s' % got2)
+    if bad:
         v.violation(obj, tag='replay')
     else:
         print('replay: behave agrees with the oracle on this scenario')
